@@ -121,14 +121,9 @@ func newYarnSpinnerCommand(command any) (YarnSpinnerCommand, error) {
 				errChan <- fmt.Errorf("command returned a nil chan")
 				return errChan
 			}
-			switch returnChan := outputParameters[0].Interface().(type) {
-			case <-chan error:
-				return returnChan
-			case chan error:
-				return returnChan
-			}
-			errChan <- fmt.Errorf("command did not return a chan error like expected")
-			return errChan
+			// checkCommandOutputParameters only lets through channel types that convert to <-chan error
+			// (chan error, <-chan error and named types of those)
+			return outputParameters[0].Convert(typeReceiveErrChan).Interface().(<-chan error)
 		}
 
 		go func() {
@@ -179,5 +174,9 @@ func isTypeErrChan(t reflect.Type) bool {
 	if t.Kind() != reflect.Chan {
 		return false
 	}
-	return t.Elem().ConvertibleTo(typeError)
+	// the runner receives from the channel: a send-only channel, or a channel of another element type
+	// (even one that implements error), cannot be handed over as a <-chan error
+	return t.ConvertibleTo(typeReceiveErrChan)
 }
+
+var typeReceiveErrChan = reflect.TypeOf((<-chan error)(nil))
